@@ -8,6 +8,7 @@ package dtls
 import (
 	"context"
 	"crypto/ecdsa"
+	"crypto/ed25519"
 	"crypto/elliptic"
 	"crypto/rand"
 	"crypto/tls"
@@ -578,8 +579,11 @@ func vMakeCA(cn string) (*x509.Certificate, *ecdsa.PrivateKey) {
 	return cert, key
 }
 
+// Leaf keys are Ed25519 so that every signature in the handshake (ServerKeyExchange,
+// CertificateVerify) has a fixed length: message sizes, fragmentation and datagram packing are
+// then identical from run to run, which the trace comparisons rely on.
 func vMakeLeaf(ca *x509.Certificate, caKey *ecdsa.PrivateKey, cn string, notAfter time.Time) tls.Certificate {
-	key, err := ecdsa.GenerateKey(elliptic.P256(), rand.Reader)
+	pub, key, err := ed25519.GenerateKey(rand.Reader)
 	if err != nil {
 		panic(err)
 	}
@@ -590,7 +594,7 @@ func vMakeLeaf(ca *x509.Certificate, caKey *ecdsa.PrivateKey, cn string, notAfte
 		KeyUsage:    x509.KeyUsageDigitalSignature,
 		ExtKeyUsage: []x509.ExtKeyUsage{x509.ExtKeyUsageServerAuth, x509.ExtKeyUsageClientAuth},
 	}
-	der, err := x509.CreateCertificate(rand.Reader, tmpl, ca, &key.PublicKey, caKey)
+	der, err := x509.CreateCertificate(rand.Reader, tmpl, ca, pub, caKey)
 	if err != nil {
 		panic(err)
 	}
